@@ -176,8 +176,15 @@ pub fn history(ctx: &mut Ctx, idx: u64) {
     let mut store: ResourceRecordManager<'static> = ResourceRecordManager::new();
     let (tx, rx) = std::sync::mpsc::channel::<InstanceInformation>();
     let mut chan = if mode == 1 { Some(tx) } else { None };
-    let (atx, mut arx) = tokio::sync::mpsc::channel::<InstanceInformation>(64);
+    let (atx, arx) = tokio::sync::mpsc::channel::<InstanceInformation>(64);
     let mut achan = if mode == 2 { Some(atx) } else { None };
+    // one history in four with a channel: the application has already dropped its receiving end. The channel then delivers nothing,
+    // the store must learn everything all the same (including what the first packet after the hang-up carries)
+    let hung_up = !no_channel && (idx / 4) % 4 == 3;
+    let (rx, mut arx) = if hung_up { drop(rx); drop(arx); (None, None) } else { (Some(rx), Some(arx)) };
+    if hung_up {
+        ctx.count("histories_with_a_dropped_on_discovery_receiver");
+    }
     let rt = if mode >= 2 { Some(tokio::runtime::Builder::new_current_thread().build().unwrap()) } else { None };
     let mut log: Vec<String> = Vec::new();
     let mut announced: Vec<usize> = Vec::new();
@@ -411,16 +418,16 @@ pub fn history(ctx: &mut Ctx, idx: u64) {
     }
     ctx.add("instances_discovered_faithfully", discovered.len() as u64);
     // channel values
-    if mode == 1 || mode == 2 {
+    if (mode == 1 || mode == 2) && !hung_up {
         let mut got: Vec<InstanceInformation> = Vec::new();
         if mode == 1 {
             drop(chan);
-            while let Ok(i) = rx.try_recv() {
+            while let Some(Ok(i)) = rx.as_ref().map(|rx| rx.try_recv()) {
                 got.push(i);
             }
         } else {
             drop(achan);
-            while let Ok(i) = arx.try_recv() {
+            while let Some(Ok(i)) = arx.as_mut().map(|arx| arx.try_recv()) {
                 got.push(i);
             }
         }
